@@ -59,7 +59,7 @@ def replay(prop, spec, workdir, path, seed):
 SPECS = {
     "C01": {
         "binary": "wl-wire", "flavor": "plain", "shards": 16, "run": simple_run,
-        "timeout_quick": 600, "timeout_thorough": 3000, "ulimit_kb": 6 << 20,
+        "timeout_quick": 600, "timeout_thorough": 6000, "ulimit_kb": 6 << 20,
         "floor": 200,
         "rule": ("one case = (kind, field number, value or list, decoder mode) encoded with csproto.Encoder into a buffer of exactly "
                  "the size predicted by SizeOfTagKey/SizeOfVarint/SizeOfZigZag (canary-framed, filled 0xAA then 0x55) and read back "
@@ -74,7 +74,7 @@ SPECS = {
     },
     "C02": {
         "binary": "wl-wire", "flavor": "plain", "shards": 16, "run": simple_run,
-        "timeout_quick": 600, "timeout_thorough": 3000, "ulimit_kb": 6 << 20,
+        "timeout_quick": 600, "timeout_thorough": 6000, "ulimit_kb": 6 << 20,
         "floor": 200,
         "rule": ("one case = (kind, field number, value) whose csproto encoding is compared byte-for-byte with protowire and refwire and whose "
                  "reference encoding is decoded by csproto.Decoder; or one well-formed field sequence walked with DecodeTag+Skip in safe and fast "
